@@ -132,13 +132,20 @@ CLAIMS = {
             "offsets, in child processes; result and final file bytes compared with the in-memory rendering and the model.",
             "std::fs, tiny-skia's save_png and the OS are modelled, not verified. Trusted: Lean kernel; the fault injector.",
             "Lean 4 induction over write schedules (model) + injected I/O faults on the real code"),
-    "C13": ("other",
-            "Partial. Lean 4 proves, on the model of ImageBuilder, that for every setter history the SVG text handed to the "
-            "rasteriser is the SvgBuilder rendering under the same setters (C13_forwarding, induction) and that the pixmap side is "
-            "the SVG side / w / h / min w h, the largest square in the request (C13_side, C13_largest_square). The rasteriser and "
-            "the PNG codec are external: the pixel clauses are checked by correspondence on the real code only — square pixmap of "
-            "the model's side, every pixel of every cell for the square shape at integer scale, the centre pixel of every cell "
-            "for all six shapes at >= 4 px/module, quiet zone, transparent background, PNG decodes (png crate) to the same pixels.",
-            "resvg/usvg/tiny-skia/png are not modelled; machine-checked proof does not reach the pixel clauses of this property.",
-            "Lean 4 proof of forwarding and fit size + exploration of the real rasteriser against the matrix"),
+    "C13": ("proof",
+            "Partial (the rasteriser is external). Lean 4 proves: (1) for every ImageBuilder setter history the SVG text handed to "
+            "the rasteriser is the SvgBuilder rendering under the same setters (C13_forwarding) and the pixmap side is the SVG side / "
+            "w / h / min w h, the largest square in the request (C13_side, C13_largest_square); (2) for an IDEAL centre-sampling "
+            "renderer (Spec.Raster: exact integer geometry of the six sub-path texts, painter's order) reading that very text "
+            "(C13_scene: it reads as background + one layer per configured shape + one shape per dark module): at ANY scale of at "
+            "least 4 pixels per module, for all six shapes, stroked or not, any number of layers, the pixel containing the centre of "
+            "a dark module shows the top layer's colour and the pixel containing the centre of a light module or quiet-zone cell shows "
+            "the background (C13_ideal_centres); with square layers at integer scale EVERY pixel is right (C13_ideal_square). "
+            "What no theorem covers is that resvg / tiny-skia implement the ideal: observed on every run — real pixmap vs the matrix "
+            "(all cells, PNG decoded with the png crate) and real pixmap vs Spec.Raster on the real SVG text (pixsvg, every pixel of "
+            "small pixmaps).",
+            "Trusted: Lean kernel (propext, Classical.choice, Quot.sound only); the reading of the six path texts as regions in "
+            "Spec.Raster (cross-validated against resvg); resvg/usvg/tiny-skia/png not modelled: anti-aliasing, curve flattening, "
+            "colour conversion and PNG encoding are observed, not proved.",
+            "Lean 4 proof on the SVG text + ideal rasteriser; exploration of the real rasteriser against both"),
 }
